@@ -1,12 +1,18 @@
 #!/bin/bash
 # seedrun.sh <name> <mutation-dir> <package-dir> <run-pattern> <tags-or-> <breaks-property> <check IDs...>
+# (SEED_RECHECK=1 tools/seedrun.sh <name> - <pkg> <pattern> <tags|-> <prop> <ids...> re-runs the checks of a stored seed)
 # verify the mutation in a scratch worktree, run the named quick checks against it in /repo, store under /verif/seeded/<name>/
 set -u
 name=$1; M=$2; PKG=$3; PAT=$4; TAGS=$5; PROP=$6; shift 6
 [ "$TAGS" = "-" ] && TAGS=""
 D=/verif/seeded/$name; mkdir -p $D
+# SEED_RECHECK=1: the seed is already stored and confirmed; only re-run the checks and refresh meta.json
+if [ "${SEED_RECHECK:-0}" = "1" ]; then
+  v=$(python3 -c "import json;print(json.load(open('$D/meta.json'))['confirmed'])")
+else
 cp $M/patch.diff $D/patch.diff; cp $M/demo_test.go $D/demo_test.go; cp $M/README.md $D/AGENT_README.md 2>/dev/null
 v=$(/verif/tools/seedverify.sh $M $PKG "$PAT" $TAGS | grep RESULT)
+fi
 echo "$name VERIFY: $v"
 c=$(/verif/tools/seedcheck.sh $D/patch.diff "$@")
 echo "$c" | sed "s/^/$name /" | cut -c1-300
